@@ -186,9 +186,9 @@ pub fn c05_hist_check() -> CheckDef {
 pub fn c14_checks() -> Vec<CheckDef> {
     vec![prop_check(
         "merchant-view",
-        "generated multi-channel histories (1-3 channels of one merchant, 0-3 payments each, faults and aborts included); the merchant's view is the ordered list of all protocol messages in both directions split into 32/48/96-byte atoms plus all public parameter elements; oracle: no atom of a customer message equals an atom of an earlier message or a public element (channel id exempt), and no secret scalar / element of the customer state at the time of sending (blinding factors, unrevealed nonce, revocation secret and lock, stored signatures, hidden balances as scalars) occurs in it, deliberate reveals exempt only in the revealing message; non-trivial = >=2 payments or >=2 channels; distinct by history shape",
-        &["channels/2", "channels/3"],
-        (40, 4000),
+        "generated multi-channel histories (1-3 channels of one merchant, 0-3 payments each, faults and aborts included; amount selectors as in C04 plus (cb-mb)/2, which makes the two hidden balances coincide); the merchant's view is the ordered list of all protocol messages in both directions split into 32/48/96-byte atoms plus all public parameter elements; oracle: no atom of a customer message equals an atom of an earlier message or a public element (channel id exempt), and no secret scalar / element of the customer state at the time of sending (blinding factors, unrevealed nonce, revocation secret and lock, stored signatures, hidden balances as scalars) occurs in it, deliberate reveals exempt only in the revealing message; no group element occurs twice inside one customer message; non-trivial = >=2 payments or >=2 channels; distinct by history shape",
+        &["channels/2", "channels/3", "payment-leaves-equal-balances"],
+        (80, 4000),
         c14_strategy,
         c14_oracle,
     )]
